@@ -57,9 +57,10 @@ const (
 	WFunc0    // func()
 	WFunc1    // func(K)
 	WFunc1Err // func(K) error
+	WFunc0Err // func() error
 )
 
-var wrapNames = [...]string{"", "*", "[]", "[]*", "map", "func()", "func(T)", "func(T)error"}
+var wrapNames = [...]string{"", "*", "[]", "[]*", "map", "func()", "func(T)", "func(T)error", "func()error"}
 
 type TypeSpec struct {
 	K      TK
@@ -73,6 +74,8 @@ func (t TypeSpec) String() string {
 		return "map[" + t.MapKey.String() + "]" + t.K.String()
 	case WFunc0:
 		return "func()"
+	case WFunc0Err:
+		return "func()error"
 	case WFunc1:
 		return "func(" + t.K.String() + ")"
 	case WFunc1Err:
@@ -209,6 +212,8 @@ func (t TypeSpec) GoType() reflect.Type {
 		return reflect.MapOf(scalarType(t.MapKey), e)
 	case WFunc0:
 		return reflect.FuncOf(nil, nil, false)
+	case WFunc0Err:
+		return reflect.FuncOf(nil, []reflect.Type{tError}, false)
 	case WFunc1:
 		return reflect.FuncOf([]reflect.Type{e}, nil, false)
 	case WFunc1Err:
@@ -221,7 +226,7 @@ func (t TypeSpec) IsFunc() bool { return t.W >= WFunc0 }
 
 // IsFlag: the option takes no argument (bool, *bool, []bool, func()).
 func (t TypeSpec) IsFlag() bool {
-	if t.W == WFunc0 {
+	if t.W == WFunc0 || t.W == WFunc0Err {
 		return true
 	}
 	if t.W == WMap || t.W == WFunc1 || t.W == WFunc1Err {
